@@ -38,8 +38,10 @@ def l_line(l, variant):
     return f"L\t{name(a)}\t{ao}\t{name(b)}\t{bo}\t{ov}M"
 
 
-def gfa_text(nodes, links, variant, with_header=True):
+def gfa_text(nodes, links, variant, with_header=True, filler=0):
     lines = ["H\tVN:Z:1.0"] if with_header else []
+    # filler: that many unrelated one-base segments in front, so that the graph proper stands around line `filler` of the file
+    lines += [f"S\tfill{i}\tA" for i in range(filler)]
     body = [f"S\t{name(n)}\t{SEQS[n]}\tLN:i:{len(SEQS[n])}" for n in nodes]
     body += [l_line(l, (variant + k) % 2 if variant >= 2 else variant) for k, l in enumerate(links)]
     if variant % 2 == 1:
@@ -52,13 +54,14 @@ def pstr(p):
 
 
 def run_case(job):
-    cid, nodes, links, variant, k, gz = job
+    cid, nodes, links, variant, k, gz = job[:6]
+    filler = job[6] if len(job) > 6 else 0
     from gaftools.gfa import GFA
 
     d = workdir("c14_", cid)
     try:
         gpath = os.path.join(d, "g.gfa" + (".gz" if gz else ""))
-        write_text(gpath, gfa_text(nodes, links, variant), "gz" if gz else "plain")
+        write_text(gpath, gfa_text(nodes, links, variant, filler=filler), "gz" if gz else "plain")
         steps = [(o, n) for o in "><" for n in nodes]
         paths = [list(p) for kk in range(1, k + 1) for p in itertools.product(steps, repeat=kk)]
         paths = paths + paths[::7][:5]        # a paths file may list a path more than once: one record per LINE
@@ -126,6 +129,13 @@ def run(ctx):
         variants = [0, 1, 2, 3] if links else [0]
         for v in variants:
             jobs.append((f"g{len(seen)}v{v}", nodes, links, v, k, v == 3))
+    # scale: the same two-node graphs in a file of ~65,536 / ~100,000 lines (the records of the graph proper on and around those
+    # line numbers): readers that count lines, work in chunks or report progress every N lines have their seams there
+    twolink = [j for j in jobs if len(j[1]) == 2 and len(j[2]) == 2][:1] or jobs[-1:]
+    for base in (65536, 100000):
+        for off in range(-5, 2):
+            j = twolink[0]
+            jobs.append((f"big{base}{off:+d}", j[1], j[2], (off + 5) % 4, 2, (off + 5) % 4 == 3, base + off))
     ctx.rule = (
         "one case per reachable GfaStore state (graph) x link-declaration variant (declared from either end, "
         "L before S, gz); each case runs ALL step lists of length <= 3 through GFA.extract_path (walk and "
